@@ -8,8 +8,10 @@ import (
 	"fmt"
 	"math/rand"
 	"os"
+	goruntime "runtime"
 	"sort"
 	"sync"
+	"time"
 
 	"k8s.io/apimachinery/pkg/apis/meta/v1/unstructured"
 	"k8s.io/apimachinery/pkg/runtime"
@@ -50,13 +52,22 @@ func (stubReader) List(context.Context, client.ObjectList, ...client.ListOption)
 type scriptedMap struct {
 	mu        sync.Mutex
 	informers map[schema.GroupVersionKind]*stubInformer
+	slow      bool // stress: informer start/stop takes time (widens every window around informer-map calls)
 	failNext  int // number of upcoming creations that fail
 	creates   int
 	deletes   int
 	failures  int
 }
 
+func (m *scriptedMap) pause() {
+	if m.slow {
+		time.Sleep(30 * time.Microsecond)
+		goruntime.Gosched()
+	}
+}
+
 func (m *scriptedMap) Get(_ context.Context, gvk schema.GroupVersionKind, _ runtime.Object) (cache.SharedIndexInformer, client.Reader, error) {
+	m.pause()
 	m.mu.Lock()
 	defer m.mu.Unlock()
 	if inf, ok := m.informers[gvk]; ok {
@@ -74,6 +85,7 @@ func (m *scriptedMap) Get(_ context.Context, gvk schema.GroupVersionKind, _ runt
 }
 
 func (m *scriptedMap) Delete(_ context.Context, gvk schema.GroupVersionKind) error {
+	m.pause()
 	m.mu.Lock()
 	defer m.mu.Unlock()
 	if _, ok := m.informers[gvk]; ok {
@@ -276,6 +288,7 @@ func init() {
 			}
 			w.Emit(Event{Actor: "sim", Ev: "Reset", Key: "-", Args: map[string]any{"scenario": fmt.Sprintf("c12-stress-%d", i)}})
 			cw := newC12World(w.Scheme, 2)
+			cw.m.slow = true
 			var wg sync.WaitGroup
 			owners := []string{"o1", "o2", "o3", "o4"}
 			finalFree := map[string]bool{}
